@@ -179,8 +179,8 @@ Traverse(m, G, Req, e) ==
 (* require_entry only appends to `required`; the entries are required in   *)
 (* traversal order, so the traversal can be evaluated once per graph.       *)
 (* References held by a unit root: the root is always converted, so their    *)
-(* targets are required when the unit is opened.  (DEVIATION: gimli up to    *)
-(* 452d051 skips the root's attributes in FilterUnit::new; see notes/C19.)   *)
+(* targets are required when the unit is opened (FilterUnit::new; gimli      *)
+(* before commit 77d97b6 skipped the root's attributes, see notes/C19).      *)
 RECURSIVE RootRefSeq(_, _)
 RootRefSeq(G, i) == IF i > Len(G.refs) THEN <<>>
                     ELSE (IF G.refs[i].from < 0 THEN <<G.refs[i]>> ELSE <<>>) \o RootRefSeq(G, i + 1)
